@@ -101,6 +101,7 @@ type Runner struct {
 	child  *ChildCore
 
 	mu         sync.Mutex
+	ungated    map[string]bool // gates removed by the scenario: late arrivals pass
 	scn        *Scenario
 	envAlias   map[string]string // real env id -> alias
 	aliasEnv   map[string]string // alias -> real id
@@ -422,8 +423,14 @@ func (r *Runner) pluginHandler(call *callable.Call, fn string, arg string) strin
 		time.Sleep(time.Duration(b.SleepMs) * time.Millisecond)
 	}
 	if b.Gate != "" {
-		r.Sched.Gate("probe:" + b.Gate)
-		r.Sched.Handler("probe:" + b.Gate)
+		// (a probe that arrives after the scenario has given up waiting for it and removed the gate passes through)
+		r.mu.Lock()
+		gone := r.ungated["probe:"+b.Gate]
+		r.mu.Unlock()
+		if !gone {
+			r.Sched.Gate("probe:" + b.Gate)
+			r.Sched.Handler("probe:" + b.Gate)
+		}
 	}
 	res := ""
 	if b.Outcome == "fail" {
@@ -648,10 +655,11 @@ func (r *Runner) step(st *Step) {
 		r.emit("GateReleased", "point", st.Point, "ok", err == nil)
 	case "ungate":
 		defer cancel()
-		r.Sched.Ungate(st.Point)
 		r.mu.Lock()
+		r.ungated[st.Point] = true
 		delete(r.matchers, st.Point)
 		r.mu.Unlock()
+		r.Sched.Ungate(st.Point)
 		for r.Sched.Release(st.Point) == nil {
 		}
 		r.emit("GateRemoved", "point", st.Point)
@@ -888,6 +896,7 @@ func (r *Runner) Run(s *Scenario) {
 	r.taskAlias, r.taskN = map[string]string{}, 0
 	r.calls = map[string]chan struct{}{}
 	r.matchers = map[string]map[string]string{}
+	r.ungated = map[string]bool{}
 	r.mu.Unlock()
 	r.Master.SetAgents(s.Agents)
 	var model interface{}
